@@ -1,6 +1,6 @@
 """C07 — gather() is complete, canonically ordered and deterministic (DESIGN §4.C07)."""
 from pvrules.mir import is_call, peel, show, strip_generics, subterms
-from pvrules.rules import SELF_FIELD, count_range, elem_of
+from pvrules.rules import const_int, SELF_FIELD, count_range, elem_of
 from . import unordered as un
 from . import vec_common as vc
 from . import controls
@@ -174,6 +174,12 @@ def rule_R2(ctx, f):
                 names.append(strip_generics(t[1]).split("::")[-1])
                 t = t[2][0]
             chain_ok = t == outv[0].result_term() and all(n in ("map", "into_iter") for n in names)
+        elif ok:
+            # emitted by a loop over the map's values that pushes every one of them, in that order, into the result (R5 `closure|returns-family` checks the push)
+            lp = emission_loop(b)
+            if lp is not None:
+                src = peel(lp[0].args[0], transparent=["IntoIterator::into_iter"])
+                chain_ok = src == outv[0].result_term()
     else:
         # HashMap: all (name, family) entries are moved into a Vec, that Vec is sorted by the name component (unique keys: a total order), and emitted in that order
         ok = False
@@ -499,6 +505,59 @@ def rule_R4(ctx, f):
     vc.rule_single_critical_section(ctx, f, rid)
 
 
+class RegionView:
+    """A body restricted to a set of blocks (the body of one loop): calls / calls_to / reachable_blocks see only the region, everything else is the body's."""
+    def __init__(self, body, region):
+        self._b, self._r = body, set(region)
+
+    def __getattr__(self, name):
+        return getattr(self._b, name)
+
+    def calls(self):
+        return [c for c in self._b.calls() if c.bb in self._r]
+
+    def calls_to(self, names):
+        return [c for c in self._b.calls_to(names) if c.bb in self._r]
+
+    def reachable_blocks(self):
+        return set(self._r)
+
+
+def emission_loop(b):
+    """The families emitted by a `for` loop instead of a map closure: `let mut out = Vec::..; for mut m in <by-name map>.into_values() { ..decorate m..; out.push(m) } out`.
+    Returns (next call, family element term, loop body blocks, the push, result vec term) or None."""
+    ret = peel(b.term_local(0))
+    for pu in b.calls_to("Vec::push"):
+        if peel(pu.args[0]) != ret:
+            continue
+        fam = peel(pu.args[1])
+        if not (isinstance(fam, tuple) and len(fam) == 3 and fam[0] == "field" and isinstance(fam[1], tuple) and fam[1][0] == "downcast" and fam[1][2] == "Some"):
+            # a (name, family) pair's second half
+            if isinstance(fam, tuple) and len(fam) == 3 and fam[0] == "field" and str(fam[2]) == "1":
+                inner_ = fam[1]
+            else:
+                continue
+        else:
+            inner_ = fam
+        nx_t = peel(inner_[1][1], transparent=[]) if (isinstance(inner_, tuple) and len(inner_) == 3 and isinstance(inner_[1], tuple) and len(inner_[1]) == 3) else None
+        if not is_call(nx_t, "Iterator::next"):
+            continue
+        nx = [c for c in b.calls_to("Iterator::next") if c.bb == nx_t[3]]
+        if not nx:
+            continue
+        si = b.switch_info(nx[0].target)
+        some = [t for v, t in si[1] if v == 1] if si else []
+        if not some:
+            continue
+        region = b.reach(some[0], avoid_blocks=[nx[0].bb])
+        # the loop body ends at the next iteration: blocks only reachable through the loop exit are not part of it
+        ex = [t for v, t in si[1] if v == 0]
+        if ex:
+            region -= (b.reach(ex[0], avoid_blocks=[nx[0].bb]) - b.reach(some[0], avoid_blocks=[nx[0].bb, ex[0]]))
+        return nx[0], fam, region, pu, ret
+    return None
+
+
 def rule_R5(ctx, f):
     rid = "R5"
     ctx.rule(rid, "prefix and common labels reach every family and sample: the output closure has no filter; with a prefix the name becomes "
@@ -512,19 +571,34 @@ def rule_R5(ctx, f):
         a = ret[2][0][2][1]
         if a[0] == "agg" and a[1] == "closure":
             cl = f.closure(a[2])
-    ctx.ob(rid, "gather|output-closure", cl is not None, "the emitted families must go through one map closure", site=b.raw["span"]["at"])
-    if not cl:
+    loop = emission_loop(b) if cl is None else None
+    ctx.ob(rid, "gather|output-closure", cl is not None or loop is not None, "the emitted families must go through one map closure (or one loop that pushes every family into the result)", site=b.raw["span"]["at"])
+    if not cl and not loop:
         return
-    ctx.saw(cl)
-    # the closure receives the family itself, or a (name, family) pair when the by-name map's entries were sorted in a Vec
-    fam = ("field", ("param", 2), "1") if cl.local_ty(2).startswith("(") else ("param", 2)
-    caps = a[3]
+    if cl:
+        ctx.saw(cl)
+        # the closure receives the family itself, or a (name, family) pair when the by-name map's entries were sorted in a Vec
+        fam = ("field", ("param", 2), "1") if cl.local_ty(2).startswith("(") else ("param", 2)
+        caps = a[3]
+    else:
+        nx_l, fam, region_l, push_l, out_l = loop
+        cl = RegionView(b, region_l)
+        caps = ()
 
     def outer_terms(t):
         """Subterms of t plus, for every captured variable mentioned in t, the subterms of the term captured in gather's own body."""
         out = []
-        for s_ in subterms(t):
-            out.append(s_)
+        seen0 = set()
+        todo0 = [t]
+        while todo0:
+            t0 = todo0.pop()
+            for s_ in subterms(t0):
+                out.append(s_)
+                # a local with several definitions (e.g. `match self.labels { Some(..) => pairs, None => Vec::new() }`)
+                if isinstance(s_, tuple) and len(s_) == 2 and s_[0] == "var" and s_[1] not in seen0 and len(seen0) < 40:
+                    seen0.add(s_[1])
+                    todo0.extend(cl.var_alts(s_[1]))
+        for s_ in list(out):
             if isinstance(s_, tuple) and len(s_) == 3 and s_[0] == "field" and str(s_[2]).isdigit() and peel(s_[1]) == ("param", 1) and int(s_[2]) < len(caps):
                 todo, seen = [caps[int(s_[2])]], set()
                 while todo:
@@ -553,6 +627,23 @@ def rule_R5(ctx, f):
         nd = [c for c in cl.calls_to("Argument::new_display")]
         if fmt_ok and len(nd) == 2:
             fmt_ok = mentions(nd[0].args[0], "prefix")
+        if not fmt_ok:
+            # the same string assembled by hand: String::with_capacity(..); push_str(prefix); push('_'); push_str(name)
+            S = peel(v)
+            parts = [c for c in cl.calls_to(["String::push_str", "String::push"]) if peel(c.args[0]) == S]
+            others = [c for c in cl.calls() if c.args and peel(c.args[0]) == S and c.matches(["String::insert", "String::insert_str", "String::clear", "String::truncate", "String::pop",
+                                                                                                 "String::remove", "String::retain", "String::extend", "String::replace_range"])]
+            if is_call(S, ["String::with_capacity", "String::new"]) and len(parts) == 3 and not others:
+                parts.sort(key=lambda c: len([d for d in parts if cl.dominates(d.bb, c.bb)]))
+                p0, p1, p2 = parts
+                sep = peel(p1.args[1])
+                sep_ok = (p1.matches("String::push") and isinstance(sep, tuple) and sep[0] == "const" and const_int(sep) == 0x5F) or \
+                         (p1.matches("String::push_str") and isinstance(sep, tuple) and sep[0] == "const" and sep[1] == '"_"')
+                nm = peel(p2.args[1])
+                fmt_ok = p0.matches("String::push_str") and mentions(p0.args[1], "prefix") and sep_ok and p2.matches("String::push_str") and \
+                    is_call(nm, ["MetricFamily::name", "get_name"]) and peel(nm[2][0]) == fam and \
+                    cl.dominates(p0.bb, p1.bb) and cl.dominates(p1.bb, p2.bb) and cl.dominates(p2.bb, sn[0].bb) and \
+                    all(cl.all_paths_pass(p0.bb, [x.bb]) for x in (p1, p2, sn[0]))
     ctx.ob(rid, "prefix|format", ok and fmt_ok, "with a prefix every family must be renamed to \"{prefix}_{name}\" (prefix first, '_' separator)", site=sn[0].span if sn else cl.raw["span"]["at"])
     if sn:
         # set_name is guarded only by `prefix is Some`
@@ -583,11 +674,22 @@ def rule_R5(ctx, f):
             si = cl.switch_info(bi)
             if si and cl.dominates(bi, sl[0].bb) and si[0][0] == "discr" and not is_call(peel(si[0][1], transparent=[]), "Iterator::next"):
                 guards.append(si[0])
+            elif si and cl.dominates(bi, sl[0].bb) and bi != sl[0].bb and si[3] == "bool":
+                guards.append(si[0])
         ok = all(mentions(g, "labels") or mentions(g, "prefix") for g in guards)
         ctx.ob(rid, "labels|unconditional", ok, "the label append may depend only on whether the registry has common labels", site=sl[0].span)
     # the closure returns the family it received
-    r = cl.term_local(0)
-    ctx.ob(rid, "closure|returns-family", peel(r) == fam, "the output closure must return the (modified) family itself (found %s)" % show(r), site=cl.raw["span"]["at"])
+    if loop:
+        si_l = b.switch_info(nx_l.target)
+        entry_l = [t for v, t in si_l[1] if v == 1][0]
+        pushes_l = [c for c in b.calls_to(["Vec::push", "Vec::insert", "Vec::extend", "Vec::append", "Vec::pop", "Vec::remove", "Vec::clear", "Vec::truncate", "Vec::retain", "Vec::swap_remove"])
+                    if peel(c.args[0]) == out_l]
+        okr = len(pushes_l) == 1 and pushes_l[0] is push_l or (len(pushes_l) == 1 and pushes_l[0].bb == push_l.bb)
+        okr = okr and b.all_paths_pass(entry_l, [push_l.bb], dst_set={nx_l.bb}) and is_call(out_l, ["Vec::with_capacity", "Vec::new"])
+        ctx.ob(rid, "closure|returns-family", okr, "every family of the by-name map must be pushed into the result exactly once, and nothing else", site=push_l.span)
+    else:
+        r = cl.term_local(0)
+        ctx.ob(rid, "closure|returns-family", peel(r) == fam, "the output closure must return the (modified) family itself (found %s)" % show(r), site=cl.raw["span"]["at"])
     # pair construction closure: name <- key, value <- value
     npair = 0
     cands = f.closures_of(cl)
